@@ -7,7 +7,7 @@ CFG = dict(
          "(nested maps/lists/NULL/missing, mutated from a template so paths hit and miss; the WHERE column typed like the literal, NULL or missing). "
          "Per row: EmitSync on the instance that saw the whole history and on a fresh instance. Then the history through Emit with two synchronous "
          "sinks and a ToChannel reader, and through an unread result channel of capacity 1-3; 4 structured + 2 raw-string calls of "
-         "fieldpath.GetNestedField (negative subscripts, unmatched / invalid brackets, the slice-bounds panic). distinct = distinct (cfg, ops)",
+         "fieldpath.GetNestedField (negative subscripts, unmatched / invalid brackets, the slice-bounds panic). distinct = distinct (cfg, ops) Added late: one WHERE in four goes through an identity function registered at run time, after a throw-away query was compiled and after a statement calling the function was rejected (`wherefn`). Every fifth case runs under WithHighPerformance (`preset high`), for C05/C06/C12/C13/C14/C16/C20 another fifth under WithLowLatency (`preset low`); every seventh case follows a noise prelude (failing statements, malformed rows, panicking sink / function in other instances).",
     assumptions=["WHERE is an abstract predicate in the theorems; the driver instantiates it for `col OP literal` with a column of the literal's type, NULL or missing (never != on NULL): predicate evaluation is C06/C12",
                  "the SQL front end's output for a SELECT list (SimpleFields / FieldExpressions, Spec.toConfig) is tied to rsql by correspondence only (parser faithfulness is C11)",
                  "items of the projection grammar: `*` alone, columns / nested paths with subscripts >= 0, back-quoted columns, quoted literals over [A-Za-z0-9_ :.-]; "
